@@ -86,7 +86,7 @@ def _is_control_flow(exc: BaseException) -> bool:
 
 
 class DetLoop(asyncio.AbstractEventLoop):
-    def __init__(self, choices: Optional[list] = None, max_steps: int = 20000):
+    def __init__(self, choices: Optional[list] = None, max_steps: int = 20000, offset: int = 0):
         self._ready: list = []
         self._timers: list = []
         self._now = 0.0
@@ -95,6 +95,10 @@ class DetLoop(asyncio.AbstractEventLoop):
         self._tasks: list = []
         self._choices = list(choices) if choices is not None else []
         self._choice_pos = 0
+        # the symbolic choices apply to choice points number offset, offset+1, ... (a choice point
+        # is a moment with more than one ready callback); earlier and later ones are FIFO
+        self._offset = offset
+        self._points_seen = 0
         self.choice_log: list = []  # (n_ready, picked)
         self._steps = 0
         self._max_steps = max_steps
@@ -169,6 +173,9 @@ class DetLoop(asyncio.AbstractEventLoop):
     def _pick(self) -> _Handle:
         n = len(self._ready)
         if n > 1 and self._choice_pos < len(self._choices):
+            if self._choice_pos == 0 and self._points_seen < self._offset:
+                self._points_seen += 1
+                return self._ready.pop(0)
             c = self._choices[self._choice_pos]
             self._choice_pos += 1
             for i in range(n):
